@@ -5,7 +5,12 @@ Driven (real, tree under test):
     a plain list of simple objects (mode "plain": the un-instrumented class, loaded from the tree's source under an alias): append, insert, remove, pop, __setitem__ (int / slice), __delitem__ (int / slice),
     extend, +=, reverse, sort, clear, reorder;
   * `ext.associationproxy._AssociationList / _AssociationSet / _AssociationDict` on in-memory mapped classes (creator / getter /
-    setter closures): every mutator they define plus the read operations.
+    setter closures): every mutator they define plus the read operations;
+  * bulk assignment through the owning object's attribute (`owner.proxy = value` -> AssociationProxyInstance.set -> _bulk_replace of the
+    list / set / dict proxy; `parent.items = [...]` -> collections.bulk_replace into a new OrderingList): value empty, overlapping
+    the current contents (members kept, kept with ANOTHER value [dict], dropped, new, duplicated), derived from the current contents,
+    or the proxy itself — an operation of the catalogue like any other, so it occurs at every place of a sequence and before flush.
+    The plain model of `owner.attr = value` is: the model collection holds list(value) / set(value) / dict(value) afterwards.
 Contract, `ensures` of every operation, the same operation applied side by side to a plain Python list / set / dict model:
   L  same outcome: same return value (objects compared by name) or the same exception type, and afterwards the same contents
   O  OrderingList rep invariant restored: position(self[i]) == i + count_from for every i  ("position equals index after ANY list
@@ -115,6 +120,15 @@ def _ol_ops():
     return o
 
 
+def _ol_bound_ops():
+    """the relationship collection additionally takes bulk assignment `parent.items = [...]` (no entity twice: precondition)"""
+    o = _ol_ops()
+    o.append(("assign([])", lambda c, k: k.assign(c, [])))
+    o.append(("assign([c[-1],new]+c[:-1])", lambda c, k: k.assign(c, [c[-1], k.new()] + list(c[:-1]))))
+    o.append(("assign(c[1:]+[new])", lambda c, k: k.assign(c, list(c[1:]) + [k.new()])))
+    return o
+
+
 def _al_ops():
     o = []
 
@@ -139,6 +153,12 @@ def _al_ops():
     add("c*=2", lambda c, k: c.__imul__(2) and None)
     add("c*=0", lambda c, k: c.__imul__(0) and None)
     add("clear()", lambda c, k: c.clear())
+    # bulk assignment  owner.kid_names = <value>
+    add("assign([])", lambda c, k: k.assign(c, []))
+    add("assign(['b','a','c'])", lambda c, k: k.assign(c, ["b", "a", "c"]))
+    add("assign(['a','a'])", lambda c, k: k.assign(c, ["a", "a"]))
+    add("assign(['c']+list(c))", lambda c, k: k.assign(c, ["c"] + list(c)))
+    add("assign(self)", lambda c, k: k.assign(c, c))
     # read operations (return value compared)
     add("read", lambda c, k: [len(c), "a" in c, c.count("a"), list(c[0:2]), list(c + ["z"]), list(c * 2), list(c.copy()), c == ["a", "b"], c != ["a"],
                               c.index("a") if "a" in c else None, c[-1] if len(c) else None])
@@ -164,6 +184,11 @@ def _as_ops():
     add("intersection_update(['b','d'])", lambda c, k: c.intersection_update(["b", "d"]))
     add("difference_update(['b'])", lambda c, k: c.difference_update(["b"]))
     add("symmetric_difference_update(['b','c'])", lambda c, k: c.symmetric_difference_update(["b", "c"]))
+    # bulk assignment  owner.tags = <value>
+    add("assign(set())", lambda c, k: k.assign(c, set()))
+    add("assign({'a','c'})", lambda c, k: k.assign(c, {"a", "c"}))
+    add("assign(['b','d','b'])", lambda c, k: k.assign(c, ["b", "d", "b"]))
+    add("assign(self)", lambda c, k: k.assign(c, c))
     add("read", lambda c, k: [len(c), "a" in c, sorted(c.union(["z"])), sorted(c.intersection(["a", "b"])), sorted(c.difference(["a"])), sorted(c.symmetric_difference(["a", "z"])),
                               sorted(c | {"y"}), sorted(c & {"a"}), sorted(c - {"b"}), sorted(c ^ {"a"}), c.issubset(["a", "b", "c"]), c.issuperset(["a"]), c == {"a", "b"}, c != {"a"},
                               c <= {"a", "b"}, c >= {"a"}, sorted(c.copy())])
@@ -188,6 +213,13 @@ def _ad_ops():
     add("update(a='7')", lambda c, k: c.update(a="7"))
     add("update([('c','8')])", lambda c, k: c.update([("c", "8")]))
     add("clear()", lambda c, k: c.clear())
+    # bulk assignment  owner.props = <value>: keys absent / present with the same value / present with another value / dropped
+    add("assign({})", lambda c, k: k.assign(c, {}))
+    add("assign({'a':'2','c':'3'})", lambda c, k: k.assign(c, {"a": "2", "c": "3"}))
+    add("assign({'a':'1','b':'4'})", lambda c, k: k.assign(c, {"a": "1", "b": "4"}))
+    add("assign({k:v+'0' for k,v in c})", lambda c, k: k.assign(c, {key: v + "0" for key, v in c.items()}))
+    add("assign(dict(c))", lambda c, k: k.assign(c, dict(c.items())))
+    add("assign(self)", lambda c, k: k.assign(c, c))
     add("read", lambda c, k: [len(c), "a" in c, c.get("a"), c.get("z", "dflt"), sorted(c.keys()), sorted(c.values()), sorted(c.items()), c == {"a": "1"}, c != {"a": "1"},
                               sorted(c.copy().items()), c["a"] if "a" in c else None])
     return o
@@ -218,23 +250,43 @@ class PlainE:      # element of a plain OrderingList
         self.position = None
 
 
-TARGETS = {"ol-bound": _ol_ops, "ol-plain": _ol_ops, "ap-list": _al_ops, "ap-set": _as_ops, "ap-dict": _ad_ops}
+ATTR = {"ol-bound": "items", "ap-list": "kid_names", "ap-set": "tags", "ap-dict": "props"}      # the attribute a bulk assignment sets
+TARGETS = {"ol-bound": _ol_bound_ops, "ol-plain": _ol_ops, "ap-list": _al_ops, "ap-set": _as_ops, "ap-dict": _ad_ops}
 INITS = {"ol-bound": (0, 3), "ol-plain": (0, 3), "ap-list": (0, 2), "ap-set": (0, 2), "ap-dict": (0, 2)}
 _CATS = {}
 
 
-def catalogue(target):
+def catalogue(target, core=False):
+    """the operations of a target; core=True: without the bulk assignments (the quick tier's longest sequences)"""
     if target not in _CATS:
         _CATS[target] = TARGETS[target]()
+    if core:
+        return [c for c in _CATS[target] if not c[0].startswith("assign(")]
     return _CATS[target]
 
 
 class Keys:
-    def __init__(self, names, make, key):
-        self.names, self.make, self.key = iter(names), make, key
+    def __init__(self, names, make, key, assign=None):
+        self.names, self.make, self.key, self._assign = iter(names), make, key, assign
 
     def new(self):
         return self.make(next(self.names))
+
+    def assign(self, c, value):
+        """bulk assignment `owner.<attribute> = value` (real side: the attribute set on the owning object; model side: the plain
+        collection takes the contents of `value`)"""
+        if self._assign is not None:
+            return self._assign(value)
+        if isinstance(c, list):
+            c[:] = list(value)
+        elif isinstance(c, set):
+            v = set(value)
+            c.clear()
+            c.update(v)
+        else:
+            v = dict(value)
+            c.clear()
+            c.update(v)
 
 
 def norm(v):
@@ -353,8 +405,11 @@ def run_seq(target, init, names, flush=False, engine=None):
                 ro = ["raise", "KeyError"]
                 mo = ["raise", "KeyError"] if not model else ["ok", True]
         else:
-            ro = outcome(fn, real, Keys(fresh, make_real, (lambda e: e.name)))
+            real_assign = (lambda value: setattr(owner, ATTR[target], value)) if owner is not None else None
+            ro = outcome(fn, real, Keys(fresh, make_real, (lambda e: e.name), real_assign))
             mo = outcome(fn, model, Keys(fresh, (lambda x: x), (lambda x: x)))
+            if owner is not None:
+                real = getattr(owner, ATTR[target])        # a bulk assignment may have installed a new collection object
         rv, broken = view(target, owner, real)
         if ro != mo:
             broken.insert(0, f"L: outcome {ro} != plain model's {mo}")
@@ -418,8 +473,8 @@ def _worker(job):
     target, init, flush = job["target"], job["init"], job.get("flush", False)
     if flush and _G["engine"] is None:
         _G["engine"] = H.new_engine(mappings().Base.metadata)
-    cat = catalogue(target)
-    res = dict(evaluations=0, nontrivial=0, failures=[], samples=[], skipped_prefix_already_broken=0, flushed=0, finals=set())
+    cat = catalogue(target, job.get("core", False))
+    res = dict(evaluations=0, nontrivial=0, failures=[], samples=[], skipped_prefix_already_broken=0, flushed=0, finals=set(), assign_nontrivial=0)
     for idxs in H.job_sequences(len(cat), job):
         names = [cat[k][0] for k in idxs]
         r = run_seq(target, init, names, flush)
@@ -433,6 +488,8 @@ def _worker(job):
             if r["changed"]:
                 res["nontrivial"] += 1
             res["finals"].add((target, json.dumps(r["final"])))
+            if r["changed"] and any(x.startswith("assign(") for x in names):
+                res["assign_nontrivial"] += 1
             res["flushed"] += 1 if r.get("flushed") else 0
             if r["changed"] and not res["samples"] and len(names) == job["length"]:
                 res["samples"].append(dict(target=target, init=init, ops=names, final=r["final"]))
@@ -440,17 +497,19 @@ def _worker(job):
 
 
 def scope_for(tier):
-    return ((1, 2, 3), (1, 2)) if tier == "quick" else ((1, 2, 3, 4), (1, 2, 3))
+    """(in-memory lengths over the full catalogue, in-memory lengths over the core catalogue [no bulk assignment], flush lengths)"""
+    return ((1, 2), (3,), (1, 2)) if tier == "quick" else ((1, 2, 3), (4,), (1, 2, 3))
 
 
 def bounded(run, tier, seed):
     t0 = time.time()
-    mem, fl = scope_for(tier)
+    mem, mem_core, fl = scope_for(tier)
     joblist = []
     for target in TARGETS:
         n = len(catalogue(target))
         for init in INITS[target]:
             joblist += H.jobs(n, mem, min_jobs=20, target=target, init=init)
+            joblist += H.jobs(len(catalogue(target, True)), mem_core, min_jobs=20, target=target, init=init, core=True)
             if target != "ol-plain":
                 joblist += H.jobs(n, fl, min_jobs=20, target=target, init=init, flush=True)
     if seed:
@@ -480,14 +539,18 @@ def bounded(run, tier, seed):
             seen_t.add(smp["target"])
             samples.append(smp)
     blk = dict(
-        scope=f"OrderingList(position, count_from=1) as a relationship collection and as a plain list, starting empty or with 3 elements, {len(catalogue('ol-bound'))} operations; association "
+        scope=f"OrderingList(position, count_from=1) as a relationship collection ({len(catalogue('ol-bound'))} operations incl. bulk assignment `parent.items = [...]`) and as a plain list "
+              f"({len(catalogue('ol-plain'))}), starting empty or with 3 elements; association "
               f"proxies to a list ({len(catalogue('ap-list'))} operations), a set ({len(catalogue('ap-set'))}) and a keyed dict ({len(catalogue('ap-dict'))}) of intermediary objects, starting empty or "
-              f"with 2 values; ALL operation sequences of length in {list(mem)} for every target and start, each operation mirrored on a plain list / set / dict; plus flush + expire + reload "
-              f"on SQLite :memory: for ALL sequences of length in {list(fl)} (mapped targets)",
+              f"with 2 values, the operations being every mutator of the proxy collection, the read operations and bulk assignment to the proxy attribute (`owner.proxy = value`: empty / "
+              f"overlapping with kept, changed, dropped and new members / derived from the current contents / the proxy itself); ALL operation sequences of length in {list(mem)} for every "
+              f"target and start and ALL sequences of length in {list(mem_core)} without the bulk assignments, each operation mirrored on a plain list / set / dict; plus flush + expire + reload "
+              f"on SQLite :memory: for ALL sequences of length in {list(fl)} (mapped targets, bulk assignments included)",
         evaluations=agg["evaluations"], distinct_nontrivial=agg["nontrivial"],
         rule="every (target, start, operation sequence) is enumerated once; non-trivial = at least one operation of the sequence changed the plain model's contents (so the real mutator, "
              "its creator / setter or the renumbering had work to do), counted per sequence",
         samples=samples, exhaustive=True, label="bounded (not proof)", distinct_final_contents=len(agg.get("finals", ())), flush_reload_evaluations=agg["flushed"],
+        bulk_assignment_nontrivial=agg["assign_nontrivial"],
         skipped_prefix_already_broken=agg["skipped_prefix_already_broken"], contract_failures=len(failures), wall_s=round(time.time() - t0, 1))
     run.coverage.setdefault("bounded", []).append(blk)
     return blk
